@@ -77,6 +77,8 @@ def pieces (bs : Bytes) : List Bytes :=
 
 /-- case `path hex(utf8)` impl `hex|panic` -/
 def checkPath (case impl : List String) : List Fail :=
+  -- (`<hex> f`: the same string through `Path::from`; one model for both ways to a Path)
+  let case := match case with | [h, "f"] => [h] | c => c
   match case, impl with
   | [h], [out] =>
     match hexToBytes h with
